@@ -73,13 +73,13 @@ func c17Expected(repos []*c17Repo, m c17Model) (docs []string, names []string) {
 
 type c17View struct {
 	all, needle, bySet, byType []string
-	listed                      []string
+	listed, listedQ, listedIDs  []string
 	urls                        []string // repository names in RepoURLs/LineFragments of the results
 	err                         string
 }
 
 func (v c17View) key() string {
-	return fmt.Sprint(v.all, "|", v.needle, "|", v.bySet, "|", v.byType, "|", v.listed, "|", v.err)
+	return fmt.Sprint(v.all, "|", v.needle, "|", v.bySet, "|", v.byType, "|", v.listed, "|", v.listedQ, "|", v.listedIDs, "|", v.err)
 }
 
 func c17Observe(dir string, repos []*c17Repo) c17View {
@@ -129,6 +129,28 @@ func c17Observe(dir string, repos []*c17Repo) c17View {
 		v.listed = append(v.listed, e.Repository.Name)
 	}
 	sort.Strings(v.listed)
+	// by repository id (same-named repositories share one entry in the listing by name)
+	for qi, lq := range []query.Q{&query.Const{Value: true}, &query.Substring{Pattern: "needle"}} {
+		rm, err := ss.List(sysCtx(), lq, &zoekt.ListOptions{Field: zoekt.RepoListFieldReposMap})
+		if err != nil {
+			v.err += "list(reposmap): " + err.Error()
+			return v
+		}
+		for id := range rm.ReposMap {
+			v.listedIDs = append(v.listedIDs, fmt.Sprintf("q%d:%d", qi, id))
+		}
+	}
+	sort.Strings(v.listedIDs)
+	// a listing driven by a content query takes another path through the shard
+	rl2, err := ss.List(sysCtx(), &query.Substring{Pattern: "needle"}, nil)
+	if err != nil {
+		v.err += "list(needle): " + err.Error()
+		return v
+	}
+	for _, e := range rl2.Repos {
+		v.listedQ = append(v.listedQ, e.Repository.Name)
+	}
+	sort.Strings(v.listedQ)
 	return v
 }
 
@@ -169,10 +191,93 @@ func c17Check(v c17View, repos []*c17Repo, m c17Model) string {
 			return fmt.Sprintf("tombstoned repository %s named in RepoURLs/LineFragments of a search result", u)
 		}
 	}
+	names = c17Uniq(names)
 	if fmt.Sprint(v.listed) != fmt.Sprint(names) {
 		return fmt.Sprintf("listing %v differs from the model %v", v.listed, names)
 	}
+	var wantIDs []string
+	for qi := 0; qi < 2; qi++ {
+		for _, r := range repos {
+			if m.tomb[r.id] {
+				continue
+			}
+			visible := false
+			for f := range r.docs {
+				if !m.files[r.id][f] {
+					visible = true
+				}
+			}
+			if qi == 0 || visible {
+				wantIDs = append(wantIDs, fmt.Sprintf("q%d:%d", qi, r.id))
+			}
+		}
+	}
+	sort.Strings(wantIDs)
+	if fmt.Sprint(v.listedIDs) != fmt.Sprint(wantIDs) {
+		// A shard matches a content query to repositories by NAME, so a live repository
+		// without a visible match is listed when a same-named repository matches. That
+		// is not a tombstone matter; what the property demands is that no tombstoned
+		// repository is listed and that no live, matching one is missing.
+		got := map[string]bool{}
+		for _, x := range v.listedIDs {
+			got[x] = true
+		}
+		for _, x := range wantIDs {
+			if !got[x] {
+				return fmt.Sprintf("listing by id %v lacks %s of the model %v (q0 = match-all, q1 = content query)", v.listedIDs, x, wantIDs)
+			}
+		}
+		want := map[string]bool{}
+		for _, x := range wantIDs {
+			want[x] = true
+		}
+		for _, x := range v.listedIDs {
+			if want[x] {
+				continue
+			}
+			explained := false
+			for _, r := range repos {
+				if x == fmt.Sprintf("q1:%d", r.id) && !m.tomb[r.id] {
+					for _, o := range repos {
+						if o != r && o.name == r.name && want[fmt.Sprintf("q1:%d", o.id)] {
+							explained = true
+						}
+					}
+				}
+			}
+			if !explained {
+				return fmt.Sprintf("listing by id %v holds %s which the model %v does not (q0 = match-all, q1 = content query; tombstoned %v)", v.listedIDs, x, wantIDs, m.tomb)
+			}
+		}
+	}
+	var namesQ []string
+	for _, r := range repos {
+		if m.tomb[r.id] {
+			continue
+		}
+		for f := range r.docs {
+			if !m.files[r.id][f] {
+				namesQ = append(namesQ, r.name)
+				break
+			}
+		}
+	}
+	sort.Strings(namesQ)
+	namesQ = c17Uniq(namesQ)
+	if fmt.Sprint(v.listedQ) != fmt.Sprint(namesQ) {
+		return fmt.Sprintf("listing for a content query %v differs from the model %v", v.listedQ, namesQ)
+	}
 	return ""
+}
+
+func c17Uniq(in []string) []string {
+	var out []string
+	for i, s := range in {
+		if i == 0 || s != in[i-1] {
+			out = append(out, s)
+		}
+	}
+	return out
 }
 
 type c17Op struct {
@@ -255,20 +360,26 @@ func runC17(t *testing.T, tp *simrt.Tape, keepTrace bool) hx.Result {
 		}
 	}
 	nRepos := tp.GenRange(2, 5)
+	sameName := tp.Gen(3) == 0
 	var repos []*c17Repo
 	tmp := filepath.Join(base, "tmp")
 	os.MkdirAll(tmp, 0o755)
 	for i := 0; i < nRepos; i++ {
 		r := &c17Repo{id: uint32(10 + i), name: fmt.Sprintf("repo%d", i), docs: map[string]string{}}
+		if i == 1 && sameName {
+			r.name = "repo0" // two repositories (different ids) with one name in the compound shard
+		}
 		nd := tp.GenRange(1, 3)
 		var docs []c12Doc
 		for d := 0; d < nd; d++ {
 			name := fmt.Sprintf("f%d.txt", d)
-			content := fmt.Sprintf("needle in %s file %d\n", r.name, d)
+			content := fmt.Sprintf("needle in %s (id %d) file %d\n", r.name, r.id, d)
 			r.docs[name] = content
 			docs = append(docs, c12Doc{name, content})
 		}
-		o := index.Options{IndexDir: tmp, ShardMax: 1 << 20, Parallelism: 1, DisableCTags: true, SizeMax: 1 << 20, TrigramMax: 20000,
+		rdir := filepath.Join(tmp, fmt.Sprint(i)) // one directory each: same-named repositories have same-named shard files
+		os.MkdirAll(rdir, 0o755)
+		o := index.Options{IndexDir: rdir, ShardMax: 1 << 20, Parallelism: 1, DisableCTags: true, SizeMax: 1 << 20, TrigramMax: 20000,
 			RepositoryDescription: zoekt.Repository{ID: r.id, Name: r.name, Branches: []zoekt.RepositoryBranch{{Name: "HEAD", Version: "v1"}}}}
 		if e, _ := c12Build(o, docs, nil); e != nil {
 			return hx.Result{HarnessErr: "build: " + e.Error()}
@@ -278,7 +389,7 @@ func runC17(t *testing.T, tp *simrt.Tape, keepTrace bool) hx.Result {
 	dir := filepath.Join(base, "index")
 	os.MkdirAll(dir, 0o755)
 	var files []index.IndexFile
-	shards, _ := filepath.Glob(filepath.Join(tmp, "*.zoekt"))
+	shards, _ := filepath.Glob(filepath.Join(tmp, "*", "*.zoekt"))
 	sort.Strings(shards)
 	for _, fn := range shards {
 		f, err := os.Open(fn)
